@@ -723,7 +723,8 @@ class Link(SimComponent):
     def endpoint_down(self):
         """Let the Link know and endpoint has been brought down."""
         if not self.is_up:
-            self.current_load = 0.0
+            # the load is the data carried so far in this tick: it is kept (and reset by pre_timestep), otherwise an
+            # endpoint that is re-enabled within the same tick would hand the link a second full bandwidth
             _LOGGER.debug(f"Link {self} down")
 
     @property
